@@ -26,11 +26,11 @@ for p in props:
             "category": "model_checking",
             "text": info.get("level_text") or ("Bounded model checking of the real compiled code (Kani/CBMC): each harness is one SAT query over all values of "
                      "its symbolic inputs within the stated bounds; unsat = holds for every such value. Bounds: " + info.get("bounds", "")),
-            "design_ref": "DESIGN.md section 5, " + pid,
+            "design_ref": "DESIGN.md section 4, " + pid,
         },
         "level_note": "Trusted: Kani MIR->goto translation, CBMC symex/bit-blasting, cadical; harness-side oracles. "
                       "Outside the claim: " + info.get("outside", ""),
-        "technique": info.get("technique", "bounded model checking of the compiled Rust code with Kani/CBMC (SAT), one-step harnesses over symbolic state, counterexamples replayed natively"),
+        "technique": info.get("technique", "bounded model checking of the compiled Rust code with Kani/CBMC (SAT back end cadical): one-step #[kani::proof] harnesses over symbolic state, per-loop unwind bounds with unwinding assertions, kani::cover vacuity witnesses; counterexamples replayed natively via Kani concrete playback, or re-decided with a second SAT solver (kissat) where the trace is too large"),
     })
 m = {
     "version": 1,
